@@ -7,6 +7,7 @@ import Librfn.Model.Bintree
     iter in|pre|post|list [K]    iterate (to completion, or K ≥ 1 calls only)  → seq …   (post: node/parent)
     resume                       finish an iteration cut short by K         → seq …
     trav in|pre|post|list        the recursive traversal                    → seq …
+    owns i j [i j …]             node i owns the separate tree rooted at j (freed by the deallocator) → ok
     free | freel i | freer i     bintree_free(root) / _left(i) / _right(i)  → freed …
     image                        all links: `left,tag,right` per node, `x` for a deallocated node
 -/
@@ -18,6 +19,7 @@ structure S where
   root : Ptr := none
   cells : Array (Option Node) := #[]   -- the heap, tabulated over the allocated ids
   lists : List Nat := []
+  owns : List (Nat × Nat) := []  -- (node, root of the separate tree that node owns)
   it : Iter := ⟨.inOrder, none, none⟩
   opened : Bool := false         -- an iteration was cut short after a call that returned a node
   post : Bool := false
@@ -75,6 +77,46 @@ def drainK (s : S) : Nat → Heap → Iter → Ptr → Except Err (List (Nat × 
       | .error e => .error e
       | .ok (out, h2, it2, o2) => .ok ((n, it.parent) :: out, h2, it2, o2)
 
+def parsePairs : List String → Option (List (Nat × Nat))
+  | [] => some []
+  | a :: b :: rest => do
+    let a ← a.toNat?; let b ← b.toNat?
+    let tl ← parsePairs rest
+    pure ((a, b) :: tl)
+  | _ => none
+
+/-- The harness's deallocator, handed a node that owns another tree, first frees that tree with a nested
+    `bintree_free` and then the node.  The trees are disjoint and the model's `free` leaves everything
+    outside its tree untouched (`free_children_first_once_no_uaf`), so the driver *composes* the model's
+    `free`: the deallocator log of the outer call with, after each owner, the log of the owned tree.
+    (Re-entrancy itself — the nested call running in the middle of the outer one — is not modelled.) -/
+def expandLog (s : S) : Nat → Heap → List Nat → Except Err (Heap × List Nat)
+  | 0, _, _ => .error .fuel
+  | _ + 1, h, [] => .ok (h, [])
+  | k + 1, h, x :: rest =>
+    match (s.owns.find? (·.1 == x)).map (·.2) with
+    | none =>
+      match expandLog s k h rest with
+      | .error e => .error e
+      | .ok (h2, out) => .ok (h2, x :: out)
+    | some j =>
+      match free s.isList s.fuel h s.it (some j) with
+      | .error e => .error e
+      | .ok (h1, log1) =>
+        match expandLog s k h1 (log1 ++ rest) with
+        | .error e => .error e
+        | .ok (h2, out) => .ok (h2, x :: out)
+
+def freed (s : S) (r : Except Err (Heap × List Nat)) (clearRoot : Bool) : S × List String :=
+  match r with
+  | .error e => (s, [showErr e])
+  | .ok (h, log) =>
+    match expandLog s (2 * s.n + 2) h log with
+    | .error e => (s, [showErr e])
+    | .ok (h2, out) =>
+      ({ s with cells := tabulate s.n h2, root := if clearRoot then none else s.root },
+       [showSeq false "freed" (out.map (·, none))])
+
 def order? : String → Option Order
   | "in" => some .inOrder | "pre" => some .preOrder | "post" => some .postOrder | "list" => some .list
   | _ => none
@@ -96,6 +138,10 @@ def stepLine (s : S) (w : List String) : S × List String :=
     | _, _, _ => (s, ["bad-op"])
   | "lists" :: ids =>
     if ids.all natOk then ({ s with lists := ids.map nat! }, ["ok"]) else (s, ["bad-op"])
+  | "owns" :: ps =>
+    match parsePairs ps with
+    | some ps => ({ s with owns := s.owns ++ ps }, ["ok"])
+    | none => (s, ["bad-op"])
   | ["image"] => (s, [image s])
   | ["iter", o] =>
     match order? o with
@@ -135,24 +181,15 @@ def stepLine (s : S) (w : List String) : S × List String :=
     | none => (s, ["bad-op"])
     | some (.error e) => (s, [showErr e])
     | some (.ok xs) => (s, [showSeq false "seq" (xs.map (·, none))])
-  | ["free"] =>
-    match free s.isList s.fuel s.heap s.it s.root with
-    | .error e => (s, [showErr e])
-    | .ok (h, log) => ({ s with cells := tabulate s.n h, root := none }, [showSeq false "freed" (log.map (·, none))])
+  | ["free"] => freed s (free s.isList s.fuel s.heap s.it s.root) true
   | ["freel", i] =>
     match i.toNat? with
     | none => (s, ["bad-op"])
-    | some i =>
-      match freeLeft s.isList s.fuel s.heap s.it i with
-      | .error e => (s, [showErr e])
-      | .ok (h, log) => ({ s with cells := tabulate s.n h }, [showSeq false "freed" (log.map (·, none))])
+    | some i => freed s (freeLeft s.isList s.fuel s.heap s.it i) false
   | ["freer", i] =>
     match i.toNat? with
     | none => (s, ["bad-op"])
-    | some i =>
-      match freeRight s.isList s.fuel s.heap s.it i with
-      | .error e => (s, [showErr e])
-      | .ok (h, log) => ({ s with cells := tabulate s.n h }, [showSeq false "freed" (log.map (·, none))])
+    | some i => freed s (freeRight s.isList s.fuel s.heap s.it i) false
   | _ => (s, ["bad-op"])
 
 def main (_ : List String) : IO UInt32 := runLines ({} : S) stepLine
